@@ -273,7 +273,7 @@ CHECKS["C09"] = dict(
          "violation whose signature names the carrier and path. Carriers belonging to a listed finding (messages the head handler streams "
          "as several low-level writes) are excluded from the concurrent mix by construction and counted. Non-trivial = low-level writes of "
          "different writers alternated at least twice on the channel. Distinct by case hash.",
-    required=["writers-alternate", "pipe:", "pipe:delim", "pipe:lf", "pipe:varint", "kind:sync", "kind:qblock", "carrier:bytes", "carrier:bb",
+    required=["carrier:arena", "writers-alternate", "pipe:", "pipe:delim", "pipe:lf", "pipe:varint", "kind:sync", "kind:qblock", "carrier:bytes", "carrier:bb",
               "carrier:buffer", "carrier:breader", "carrier:reader"],
     assumptions=_E1_ASSUME,
 )
